@@ -471,7 +471,11 @@ class WebSocketApp:
                         or has_pong_arrived_too_late
                     )
                 ):
-                    raise WebSocketTimeoutException("ping/pong timed out")
+                    e = WebSocketTimeoutException("ping/pong timed out")
+                    if custom_dispatcher:
+                        # called from a timer of the external event loop: nobody could catch it there
+                        return closed(e)
+                    raise e
             return True
 
         def closed(
